@@ -195,7 +195,7 @@ contract(
     returns=TNone, requires=helper_requires(['list_of_points']), ensures=one_ens,
     modifies=helper_modifies, touches=HELPER_TOUCH, mod_globals=['Constraint.counter'],
     loops={1: dict(inv=one_inv, mods=LOOP_MODS)},
-    local_types={'table_of_constraints': TList(CT)},
+    local_types={'table_of_constraints': TList(CT), 1: TList(CT)},
 )
 REG.by_key[FP + 'add_constraints_from_one_list_of_points'].no_runtime = 'pandas objects; the bounded pair-helper harness (harness/pairs.py) is the run-time counterpart'
 
@@ -298,7 +298,7 @@ def two_outer(L_):
 def two_inner(L_):
     i_now = L_.outer(1)['i']
     out, (S0, H, a, L, n0, n2, T, c) = two_common(L_, i_now, L_.i, True)
-    R = L_.var('row_of_constraints', 4).t
+    R = L_.var('row_of_constraints', 8).t
     j, k, r, i = fresh('j', I), fresh('k', I), fresh('r', I), fresh('i', I)
     out.append(('row', z3.And(R >= S0.alloc, R < H.alloc, H.cls(R) == tag('list'), R != T, R != L, H.len(R) == L_.i,
                               z3.ForAll([k], z3.Implies(z3.And(k >= 0, k < i_now), H.elt(T, k) != R)),
@@ -326,7 +326,7 @@ def two_mods(inner):
         Lc = L_.H0.fld('Function', 'list_of_class_constraints', L_.args['self'].t)
         T = L_.var('table_of_constraints', 1).t
         if inner:
-            R = L_.var('row_of_constraints', 4).t
+            R = L_.var('row_of_constraints', 8).t
             return {n: (lambda r: z3.Or(r == Lc, r == R)) for n in ('len', 'eltI')}
         return {n: (lambda r: z3.Or(r == Lc, r == T)) for n in ('len', 'eltI')}
     return mods
@@ -341,6 +341,6 @@ contract(
     defs=lambda S, a: cnt_defs(S, a['list_of_points_1'].t, a['list_of_points_2'].t, a['symmetry'].t),
     modifies=helper_modifies, touches=HELPER_TOUCH, mod_globals=['Constraint.counter'],
     loops={1: dict(inv=two_outer, lemmas=two_lemmas_outer, mods=two_mods(False)), 2: dict(inv=two_inner, lemmas=two_lemmas_inner, mods=two_mods(True))},
-    local_types={'table_of_constraints': TList(TList(CT)), 'row_of_constraints': TList(CT)},
+    local_types={'table_of_constraints': TList(TList(CT)), 'row_of_constraints': TList(CT), 1: TList(TList(CT)), 8: TList(CT)},
 )
 REG.by_key[FP + 'add_constraints_from_two_lists_of_points'].no_runtime = 'pandas objects; the bounded pair-helper harness (harness/pairs.py) is the run-time counterpart'
